@@ -77,7 +77,10 @@ def arith(op, a, b):
                 return r
             return arith('/', 1, arith('**', a, -b))
         if isinstance(b, Fraction) and b == Fraction(1, 2):
-            raise OutOfSubset('sqrt via ** 0.5')
+            from . import npvec
+            return npvec.uf('sqrt', a)
+        if isinstance(b, Fraction) and b.denominator == 1:
+            return arith('**', a, int(b))
         raise OutOfSubset('** with a symbolic exponent')
     raise OutOfSubset(f'operator {op}')
 
